@@ -1,2 +1,5 @@
 -- Root of the library: every property module (each imports its model and generated tables).
+import BV.Props.C15
+import BV.Props.C16
 import BV.Props.C18
+import BV.Props.C19
